@@ -150,7 +150,7 @@ def _mk_slice(cid):
                 piece = x.cont.get_slice(a, b, c.field)
         except pc.EXPECTED_RAISES as ex:
             x.check_unchanged(sig + '.raise')
-            check(e < s or isinstance(ex, (NotImplementedError, ValueError)), sig + '.copy_refused', (type(ex).__name__, str(ex)[:150]))
+            check(e < s or isinstance(ex, (NotImplementedError, ValueError)) or (c.refuse_re and __import__('re').search(c.refuse_re, str(ex))), sig + '.copy_refused', (type(ex).__name__, str(ex)[:150]))
             cover('raise')
             return
         check(e >= s, sig + '.reversed_bounds_accepted')
